@@ -94,7 +94,7 @@ theorem all_routes_guarded_partial :
 theorem no_route_shadowed : ∀ r ∈ routes, shadowed r = false := by decide
 
 /-- non-vacuity: the table has wrapped, public and open entries. -/
-example : (endpoints.filter (·.wrapped)).length = 75 ∧ (endpoints.filter (·.isPublic)).length = 6
+example : (endpoints.filter (·.wrapped)).length = 71 ∧ (endpoints.filter (·.isPublic)).length = 6
     ∧ (endpoints.filter (fun e => !e.guarded)).length = 5 := by decide
 
 /-! ## Part 2 — every guarded handler authorizes -/
@@ -142,7 +142,7 @@ theorem all_routes_authorize_partial :
     ∀ r ∈ routes, r.sig = "user" → authOnly.contains (r.method, r.pattern) = false →
       knownNoAuthz.contains (r.method, r.pattern) = false → authorizes r = true := by decide
 
-example : (routes.filter (fun r => r.sig == "user" && authorizes r)).length = 51 := by decide
+example : (routes.filter (fun r => r.sig == "user" && authorizes r)).length = 47 := by decide
 
 /-! ## Part 3 — `authenticate` -/
 
@@ -161,6 +161,17 @@ theorem parseCredentials_method (r : Req) (c : Creds) (h : parseCredentials r = 
     · cases h; simp
     · cases h
 
+theorem authUser_no_fall (w : World) (n p : String) (s : Nat) : authUser w n p ≠ .denyThenInner s := by
+  unfold authUser
+  split
+  · simp
+  · split <;> simp
+
+theorem authBearer_no_fall (w : World) (t : Jwt) (s : Nat) : authBearer w t ≠ .denyThenInner s := by
+  unfold authBearer
+  repeat' split
+  all_goals simp
+
 /-- hence the `default:` arm (error reported, no `return`, handler called with nil) is dead code. -/
 theorem authenticate_no_fallthrough (w : World) (r : Req) (s : Nat) :
     authenticate w r ≠ .denyThenInner s := by
@@ -172,13 +183,10 @@ theorem authenticate_no_fallthrough (w : World) (r : Req) (s : Nat) :
     · split
       · simp
       · rename_i c hc
+        unfold authSwitch
         rcases parseCredentials_method r c hc with h0 | h1
-        · simp only [h0]
-          split
-          · simp
-          · split <;> simp
-        · simp only [h1]
-          repeat (first | split | simp)
+        · rw [h0]; exact authUser_no_fall w _ _ s
+        · rw [h1]; exact authBearer_no_fall w _ s
 
 /-- the name/password pair the server looks at: the URL pair when both parts are present,
 otherwise what the Authorization header carries (Basic, or `Token name:password`). -/
@@ -201,6 +209,54 @@ theorem findUser_name (w : World) (n : String) (u : User) (h : w.findUser n = so
   have := List.find?_some h
   simpa using this
 
+/-- the password arm hands over exactly the user whose name and password were given. -/
+theorem authUser_sound (w : World) (n p : String) (ou : Option User) (h : authUser w n p = .inner ou) :
+    ∃ u, ou = some u ∧ w.findUser u.name = some u ∧ u.name ≠ "" ∧ u.name = n ∧ u.password = p := by
+  unfold authUser at h
+  split at h
+  · cases h
+  · rename_i hne
+    unfold World.metaAuthenticate at h
+    split at h
+    · rename_i u hu
+      split at hu
+      · rename_i u' hf
+        split at hu
+        · rename_i hp
+          cases hu; cases h
+          have hn := findUser_name w n _ hf
+          exact ⟨_, rfl, by rw [hn]; exact hf, by rw [hn]; exact hne, hn, hp⟩
+        · cases hu
+      · cases hu
+    · cases h
+
+theorem authBearer_sound (w : World) (t : Jwt) (ou : Option User) (h : authBearer w t = .inner ou) :
+    ∃ u, ou = some u ∧ w.findUser u.name = some u ∧ u.name ≠ "" ∧ w.sharedSecret = true ∧ t.parses = true ∧ t.expOk = true
+      ∧ t.user = .name u.name := by
+  unfold authBearer at h
+  split at h
+  · cases h
+  · rename_i h1
+    split at h
+    · cases h
+    · rename_i h2
+      split at h
+      · cases h
+      · rename_i h3
+        split at h
+        · cases h
+        · cases h
+        · rename_i n hn
+          split at h
+          · cases h
+          · rename_i hne
+            split at h
+            · rename_i u hu
+              cases h
+              have hnm := findUser_name w n u hu
+              refine ⟨u, rfl, by rw [hnm]; exact hu, by rw [hnm]; exact hne, by simpa using h1, by simpa using h2, by simpa using h3, by rw [hnm]; exact hn⟩
+            · cases h
+
 /-- **soundness of `authenticate`**: with authentication on and an administrator present, the
 wrapped handler is called only with a user, and only with the user the credentials identify. -/
 theorem authenticate_sound (w : World) (r : Req) (ou : Option User)
@@ -208,91 +264,35 @@ theorem authenticate_sound (w : World) (r : Req) (ou : Option User)
     (h : authenticate w r = .inner ou) : ∃ u, ou = some u ∧ Identifies w r u := by
   unfold authenticate at h
   simp only [ha, hadm, Bool.not_true, Bool.false_eq_true, ↓reduceIte] at h
-  unfold parseCredentials at h
-  by_cases hurl : r.urlU ≠ "" ∧ r.urlP ≠ ""
-  · simp only [hurl, and_self, ↓reduceIte] at h
-    split at h
-    · cases h
-    · unfold World.metaAuthenticate at h
-      split at h
-      · rename_i u hu
-        split at h
-        · rename_i hp
-          cases h
-          refine ⟨u, rfl, ?_⟩
-          have hn := findUser_name w _ u hu
-          refine ⟨by rw [hn]; exact hu, by rw [hn]; assumption, Or.inl ?_⟩
-          simp [Req.passwordPair, hurl, hn, hp]
-        · cases h
-      · cases h
-  · simp only [hurl, ↓reduceIte] at h
-    cases hh : r.hdr with
-    | absent => simp [hh] at h
-    | other => simp [hh] at h
-    | basic bu bp =>
-      simp only [hh] at h
-      split at h
-      · cases h
-      · unfold World.metaAuthenticate at h
-        split at h
-        · rename_i u hu
-          split at h
-          · rename_i hp
-            cases h
-            refine ⟨u, rfl, ?_⟩
-            have hn := findUser_name w _ u hu
-            refine ⟨by rw [hn]; exact hu, by rw [hn]; assumption, Or.inl ?_⟩
-            simp [Req.passwordPair, hurl, hh, hn, hp]
-          · cases h
-        · cases h
-    | token s =>
-      simp only [hh] at h
-      cases hs : parseToken s with
-      | none => simp [hs] at h
-      | some up =>
-        obtain ⟨tu, tp⟩ := up
-        simp only [hs] at h
-        split at h
-        · cases h
-        · unfold World.metaAuthenticate at h
-          split at h
-          · rename_i u hu
-            split at h
-            · rename_i hp
-              cases h
-              refine ⟨u, rfl, ?_⟩
-              have hn := findUser_name w _ u hu
-              refine ⟨by rw [hn]; exact hu, by rw [hn]; assumption, Or.inl ?_⟩
-              simp [Req.passwordPair, hurl, hh, hs, hn, hp]
-            · cases h
-          · cases h
-    | bearer t =>
-      simp only [hh] at h
-      by_cases hsec : w.sharedSecret = true
-      · simp only [hsec, Bool.not_true, Bool.false_eq_true, ↓reduceIte] at h
-        by_cases hp : t.parses = true
-        · simp only [hp, Bool.not_true, Bool.false_eq_true, ↓reduceIte] at h
-          by_cases he : t.expOk = true
-          · simp only [he, Bool.not_true, Bool.false_eq_true, ↓reduceIte] at h
-            cases htu : t.user with
-            | missing => simp [htu] at h
-            | notString => simp [htu] at h
-            | name n =>
-              simp only [htu] at h
-              split at h
-              · cases h
-              · rename_i hne
-                split at h
-                · rename_i u hu
-                  cases h
-                  refine ⟨u, rfl, ?_⟩
-                  have hn := findUser_name w _ u hu
-                  refine ⟨by rw [hn]; exact hu, by rw [hn]; exact hne, Or.inr ⟨?_, hsec, t, rfl, hp, he, by rw [hn]; exact htu⟩⟩
-                  simp [Req.passwordPair, hurl, hh]
-                · cases h
-          · simp [he] at h
-        · simp [hp] at h
-      · simp [hsec] at h
+  split at h
+  · cases h
+  · rename_i c hc
+    unfold authSwitch at h
+    unfold parseCredentials at hc
+    split at hc
+    · rename_i hurl
+      cases hc
+      obtain ⟨u, rfl, hf, hne, hn, hp⟩ := authUser_sound w _ _ ou h
+      exact ⟨u, rfl, hf, hne, Or.inl (by simp [Req.passwordPair, hurl, hn, hp])⟩
+    · rename_i hurl
+      split at hc
+      · cases hc
+      · rename_i t hh
+        cases hc
+        obtain ⟨u, rfl, hf, hne, hs, hp, he, hu⟩ := authBearer_sound w _ ou h
+        exact ⟨u, rfl, hf, hne, Or.inr ⟨by simp [Req.passwordPair, hurl, hh], hs, t, hh, hp, he, hu⟩⟩
+      · rename_i s hh
+        split at hc
+        · rename_i tu tp hs
+          cases hc
+          obtain ⟨u, rfl, hf, hne, hn, hp⟩ := authUser_sound w _ _ ou h
+          exact ⟨u, rfl, hf, hne, Or.inl (by simp [Req.passwordPair, hurl, hh, hs, hn, hp])⟩
+        · cases hc
+      · rename_i bu bp hh
+        cases hc
+        obtain ⟨u, rfl, hf, hne, hn, hp⟩ := authUser_sound w _ _ ou h
+        exact ⟨u, rfl, hf, hne, Or.inl (by simp [Req.passwordPair, hurl, hh, hn, hp])⟩
+      · cases hc
 
 /-- **`authenticate_denies`** — for every credential class other than a valid user (no
 credentials, malformed, unknown user, wrong password, bad / unsigned / expired token, bearer
@@ -325,7 +325,7 @@ theorem authenticate_accepts_basic (w : World) (u : User)
     (hu : w.findUser u.name = some u) (hn : u.name ≠ "") :
     authenticate w ⟨"", "", .basic u.name u.password⟩ = .inner (some u) := by
   unfold authenticate
-  simp [ha, hadm, parseCredentials, hn, World.metaAuthenticate, hu]
+  simp [ha, hadm, parseCredentials, authSwitch, authUser, hn, World.metaAuthenticate, hu]
 
 def demoWorld : World := ⟨true, true,
   [⟨"root", "r", true, false, []⟩, ⟨"ro", "p", false, false, [("db0", .read)]⟩, ⟨"wo", "q", false, false, [("db0", .write)]⟩]⟩
@@ -361,16 +361,16 @@ theorem lookup_setPriv_same (db : String) (p : Priv) (l : List (String × Priv))
 
 theorem lookup_setPriv_other (db db' : String) (p : Priv) (l : List (String × Priv)) (hne : db' ≠ db) :
     lookupPriv db' (setPrivList db p l) = lookupPriv db' l := by
+  have hd : ¬ db = db' := fun e => hne e.symm
   induction l with
-  | nil => simp [setPrivList, lookupPriv]; intro h; exact absurd h.symm hne
+  | nil => simp [setPrivList, lookupPriv, hd]
   | cons x xs ih =>
     obtain ⟨k, v⟩ := x
     by_cases h : k = db
-    · subst h
-      have : ¬ k = db' := fun e => hne e.symm
-      simp [setPrivList, lookupPriv, this]
+    · simp [setPrivList, lookupPriv, h, hd]
     · by_cases h' : k = db'
-      · simp [setPrivList, lookupPriv, h, h']
+      · subst h'
+        simp [setPrivList, lookupPriv, h]
       · simp [setPrivList, lookupPriv, h, h', ih]
 
 /-- **`grant_revoke_local`** (1): GRANT / REVOKE on `db` leaves every decision on another database
@@ -389,25 +389,33 @@ theorem grant_effect (u : User) (db : String) (p q : Priv) :
   simp only [lookup_setPriv_same]
   cases u.admin <;> cases u.rwuser <;> cases q <;> cases p <;> rfl
 
+/-- helper: mapping a name-preserving function that fixes every user called `m` does not change
+who `find? (name = m)` returns. -/
+theorem find_map_other (l : List User) (f : User → User) (m : String)
+    (hname : ∀ u, (f u).name = u.name) (hfix : ∀ u, u.name = m → f u = u) :
+    (l.map f).find? (fun u => u.name = m) = l.find? (fun u => u.name = m) := by
+  induction l with
+  | nil => rfl
+  | cons x xs ih =>
+    rw [List.map_cons, List.find?_cons, List.find?_cons]
+    by_cases hx : x.name = m
+    · have : (f x).name = m := by rw [hname]; exact hx
+      simp only [this, hx, decide_true]
+      rw [hfix x hx]
+    · have : ¬ (f x).name = m := by rw [hname]; exact hx
+      simp only [this, hx, decide_false]
+      exact ih
+
 /-- (3) … and touches no other user. -/
 theorem grant_other_user (w : World) (n m db : String) (p : Priv) (hne : m ≠ n) :
     (w.grant n db p).findUser m = w.findUser m := by
   unfold World.grant World.findUser
-  simp only
-  induction w.users with
-  | nil => rfl
-  | cons x xs ih =>
-    simp only [List.map_cons, List.find?_cons]
-    by_cases hx : x.name = n
-    · have hm : ¬ x.name = m := fun e => hne (e.symm.trans hx)
-      simp [hx, hm, User.setPriv, ih]
-      have : (decide (n = m)) = false := by simpa using fun e => hne e.symm
-      simp [this]
-      simpa [hx] using ih
-    · simp only [hx, ↓reduceIte]
-      by_cases hm : x.name = m
-      · simp [hm]
-      · simp [hm, ih]
+  apply find_map_other
+  · intro u
+    by_cases h : u.name = n <;> simp [h, User.setPriv]
+  · intro u hu
+    have : ¬ u.name = n := fun e => hne (hu.symm.trans e)
+    simp [this]
 
 /-- revoke is `setPriv … none`: afterwards only the empty privilege is authorized on `db`. -/
 example : authorizeDatabase ((⟨"u", "p", false, false, [("db0", .all)]⟩ : User).setPriv "db0" .none) .read "db0" = false := by decide
@@ -418,39 +426,40 @@ example : authorizeDatabase ((⟨"u", "p", false, false, [("db0", .all), ("db1",
 /-- a handler with the admin gate passes nobody but an administrator. -/
 theorem gate_admin (w : World) (r : RouteFact) (u : Option User) (db : String) (dbx : Bool) (q : List Stmt)
     (ha : w.authEnabled = true) (hg : (routeGates r).contains "admin" = true)
-    (hu : ∀ x, u = some x → x.admin = false) : gate w r u db dbx q = .d403 := by
+    (hu : isAdmin u = false) : gate w r u db dbx q = .d403 := by
   unfold gate
-  have : (match u with | some u => u.admin | none => false) = false := by
-    cases u with
-    | none => rfl
-    | some x => exact hu x rfl
-  simp [ha, hg, this]
+  simp only [ha, hg, hu, Bool.not_true, Bool.not_false, Bool.and_self, Bool.false_eq_true, ↓reduceIte]
 
 /-- a handler with the write gate passes only users whose current catalogue entry holds WRITE or
 ALL on the target database (or admin / rwuser). -/
 theorem gate_write (w : World) (r : RouteFact) (u : Option User) (db : String) (dbx : Bool) (q : List Stmt)
     (ha : w.authEnabled = true) (hg : (routeGates r).contains "write" = true)
     (hpass : gate w r u db dbx q = .pass) : w.authorizeWrite u db = true := by
-  unfold gate at hpass
-  simp only [ha, Bool.not_true, Bool.false_eq_true, ↓reduceIte, hg, Bool.true_and] at hpass
-  by_cases h : w.authorizeWrite u db = true
-  · exact h
-  · simp only [Bool.not_eq_true] at h
+  cases h : w.authorizeWrite u db with
+  | true => rfl
+  | false =>
+    unfold gate at hpass
+    simp only [ha, hg, h, Bool.not_true, Bool.not_false, Bool.and_self, Bool.false_eq_true, ↓reduceIte] at hpass
     split at hpass
     · cases hpass
-    · simp [h] at hpass
+    · cases hpass
 
 /-- a handler with the query gate passes only what `AuthorizeQuery` allows. -/
 theorem gate_query (w : World) (r : RouteFact) (u : Option User) (db : String) (dbx : Bool) (q : List Stmt)
     (ha : w.authEnabled = true) (hg : (routeGates r).contains "query" = true)
     (hpass : gate w r u db dbx q = .pass) : authorizeQuery u db q = true := by
-  unfold gate at hpass
-  simp only [ha, Bool.not_true, Bool.false_eq_true, ↓reduceIte, hg, Bool.true_and] at hpass
-  by_cases h : authorizeQuery u db q = true
-  · exact h
-  · simp only [Bool.not_eq_true] at h
-    repeat (split at hpass <;> try cases hpass)
-    all_goals simp_all
+  cases h : authorizeQuery u db q with
+  | true => rfl
+  | false =>
+    unfold gate at hpass
+    simp only [ha, hg, h, Bool.not_true, Bool.not_false, Bool.and_self, Bool.false_eq_true, ↓reduceIte] at hpass
+    split at hpass
+    · cases hpass
+    · split at hpass
+      · cases hpass
+      · split at hpass
+        · cases hpass
+        · split at hpass <;> cases hpass
 
 /-- a non-admin, non-rwuser user passes `AuthorizeQuery` only if no statement needs admin and it
 holds every named privilege on the statement's database. -/
